@@ -35,12 +35,13 @@ type c02Send struct {
 }
 
 type C02Plan struct {
-	NodeIDs  []string   `json:"node_ids"` // hex-encoded bytes
-	Services [][]string `json:"services"` // per node, hex-encoded names
-	Links    []c02Link  `json:"links"`
-	Sends    []c02Send  `json:"sends"`
-	Faults   bool       `json:"faults"`
-	Shrink   []string   `json:"_shrink"`
+	TightHops bool       `json:"tight_hops"` // the nodes' hop limit equals the longest route of the mesh
+	NodeIDs   []string   `json:"node_ids"`   // hex-encoded bytes
+	Services  [][]string `json:"services"`   // per node, hex-encoded names
+	Links     []c02Link  `json:"links"`
+	Sends     []c02Send  `json:"sends"`
+	Faults    bool       `json:"faults"`
+	Shrink    []string   `json:"_shrink"`
 }
 
 var c02NodeNames = []string{"a", "A", "node one", "n:x", "nöde-ü", "zz", "Zz", "localhos", "x.y.example.com", "n0", "n00",
@@ -116,6 +117,7 @@ func genC02(seed uint64, tier string) any {
 		}
 	}
 	p.Faults = r.Bool(0.2)
+	p.TightHops = r.Bool(0.3)
 	ns := r.Range(20, 120)
 	if tier == "thorough" {
 		ns = r.Range(50, 400)
@@ -162,6 +164,33 @@ func runC02(t *testing.T, planAny any, res *simnet.Result) {
 		k := simnet.DefaultKnobs()
 		k.ServiceAd = 0
 		k.MTU = 16384
+		if p.TightHops {
+			// "over any number of forwarding hops ... up to the hop limit": the longest shortest path, in links
+			adj := map[int][]int{}
+			for _, pl := range p.Links {
+				adj[pl.A] = append(adj[pl.A], pl.B)
+				adj[pl.B] = append(adj[pl.B], pl.A)
+			}
+			diam := 1
+			for s0 := range p.NodeIDs {
+				dist := map[int]int{s0: 0}
+				q := []int{s0}
+				for len(q) > 0 {
+					x := q[0]
+					q = q[1:]
+					for _, y := range adj[x] {
+						if _, ok := dist[y]; !ok {
+							dist[y] = dist[x] + 1
+							q = append(q, y)
+							if dist[y] > diam {
+								diam = dist[y]
+							}
+						}
+					}
+				}
+			}
+			k.MaxHops = diam
+		}
 		ids := make([]string, len(p.NodeIDs))
 		for i, h := range p.NodeIDs {
 			ids[i] = unhex(h)
